@@ -74,6 +74,15 @@ pub fn real_map<R: ARemapper + ?Sized>(r: &R, kind: TKind, s: &str, st: &mut Sta
 /// Judges one answer; returns true iff it is acceptable.
 #[allow(clippy::too_many_arguments)]
 pub fn judge_desc(ctx: &Ctx, st: &mut Stats, imp: &str, kind: TKind, input: &str, real: &Real, fwd: &CMap, replay: &dyn Fn() -> String) -> bool {
+	let mut ta = Tally::default();
+	let ok = judge_desc_tally(ctx, &mut ta, imp, kind, input, real, fwd, replay);
+	ta.flush(st);
+	ok
+}
+
+/// [`judge_desc`] with allocation-free counters (the malformed sweep judges tens of millions of answers)
+#[allow(clippy::too_many_arguments)]
+pub fn judge_desc_tally(ctx: &Ctx, st: &mut Tally, imp: &str, kind: TKind, input: &str, real: &Real, fwd: &CMap, replay: &dyn Fn() -> String) -> bool {
 	let k = kind.label();
 	let out = match real {
 		Err(p) => {
@@ -86,11 +95,11 @@ pub fn judge_desc(ctx: &Ctx, st: &mut Stats, imp: &str, kind: TKind, input: &str
 		// outside the grammar: Err or a shape-preserving answer
 		return match out {
 			Err(_) => {
-				st.outcome("malformed:refused");
+				st.add("malformed:refused");
 				true
 			},
 			Ok(o) if strip(o) == strip(input) => {
-				st.outcome("malformed:shape-preserved");
+				st.add("malformed:shape-preserved");
 				true
 			},
 			Ok(o) => {
@@ -546,8 +555,16 @@ pub fn run(ctx: &'static Ctx) -> (Stats, Value) {
 // ---------------------------------------------------------------------------------------------
 // malformed sweep
 
-pub const MAL_ALPHABET: [char; 9] = ['L', 'A', ';', '[', 'I', '(', ')', 'V', '/'];
-pub const MAL_LEN: usize = 5;
+pub const MAL_ALPHABET: [char; 10] = ['L', 'A', ';', '[', 'I', '(', ')', 'V', '/', 'é'];
+/// every string of length ≤ this over [`MAL_ALPHABET`]
+pub fn mal_len(ctx: &Ctx) -> usize {
+	ctx.tier.pick(5, 6)
+}
+/// … and every string of exactly these lengths over the characters that open, close and nest class names
+pub const MAL_NEST_ALPHABET: [char; 7] = ['L', 'A', ';', '[', '(', ')', 'é'];
+pub fn mal_nest_lens(ctx: &Ctx) -> Vec<usize> {
+	ctx.tier.pick(vec![6], vec![7, 8])
+}
 
 fn malformed_sets() -> Vec<MSet> {
 	let mk = |rows: &[(&str, &str)]| {
@@ -557,34 +574,58 @@ fn malformed_sets() -> Vec<MSet> {
 		}
 		s
 	};
-	vec![mk(&[("A", "LX"), ("A/A", "A"), ("AA", "I"), ("AI", "x")]), mk(&[]), mk(&[("I", "L"), ("V", "A/A"), ("A", "é"), ("LA", "A")])]
+	vec![mk(&[("A", "LX"), ("A/A", "A"), ("AA", "I"), ("AI", "x"), ("é", "A"), ("Aé", "éé")]), mk(&[]), mk(&[("I", "L"), ("V", "A/A"), ("A", "é"), ("LA", "A"), ("éA", "I")])]
+}
+
+/// the `idx`-th string of the malformed sweep: first the strings of length ≤ `mal_len`, then the nested ones
+fn mal_string(max_len: usize, first: u64, nest_lens: &[usize], idx: u64) -> String {
+	if idx < first {
+		return vcore::enumerate::string_nth(&MAL_ALPHABET, max_len, idx).into_iter().collect();
+	}
+	let mut rest = idx - first;
+	for &l in nest_lens {
+		let count = (MAL_NEST_ALPHABET.len() as u64).pow(l as u32);
+		if rest < count {
+			return vcore::enumerate::product_nth(&vec![MAL_NEST_ALPHABET.len(); l], rest).into_iter().map(|i| MAL_NEST_ALPHABET[i]).collect();
+		}
+		rest -= count;
+	}
+	vcore::machinery_fail("malformed sweep: index out of range")
 }
 
 pub fn run_malformed(ctx: &'static Ctx) -> Stats {
 	let sets = malformed_sets();
-	let total = vcore::enumerate::strings_count(MAL_ALPHABET.len(), MAL_LEN);
+	let max_len = mal_len(ctx);
+	let nest_lens = mal_nest_lens(ctx);
+	let first = vcore::enumerate::strings_count(MAL_ALPHABET.len(), max_len);
+	let total = first + nest_lens.iter().map(|l| (MAL_NEST_ALPHABET.len() as u64).pow(*l as u32)).sum::<u64>();
 	let chunk = 512u64;
 	let chunks = total.div_ceil(chunk);
 	(0..chunks * sets.len() as u64).into_par_iter().fold(Stats::new, |mut st, job| {
 		let set = &sets[(job / chunks) as usize];
 		let c = job % chunks;
 		vcore::watched(|| format!("malformed chunk {c} of set {}", job / chunks), || {
+			let mut ta = Tally::default();
 			let q: Mappings<2, ()> = mapmodel::to_quill(set).unwrap_or_else(|e| vcore::machinery_fail(&format!("generator: {e:#}")));
 			let ra = q.remapper_a(ns(0), ns(1)).unwrap_or_else(|e| vcore::machinery_fail(&format!("{e:#}")));
 			let rb = q.remapper_b(ns(0), ns(1), NoSuperClassProvider::new()).unwrap_or_else(|e| vcore::machinery_fail(&format!("{e:#}")));
 			let fwd = CMap::build(set, 0, 1);
 			for idx in c * chunk..((c + 1) * chunk).min(total) {
-				let s: String = vcore::enumerate::string_nth(&MAL_ALPHABET, MAL_LEN, idx).into_iter().collect();
+				let s = mal_string(max_len, first, &nest_lens, idx);
+				let non_ascii = !s.is_ascii();
 				for kind in [TKind::Field, TKind::Method, TKind::Return, TKind::ArrClass] {
 					if kind == TKind::ArrClass && !s.starts_with('[') {
 						continue;
 					}
 					let grammatical = parse_desc(kind, &s).is_some();
 					if grammatical {
-						st.outcome("malformed-sweep:grammatical");
+						ta.add("malformed-sweep:grammatical");
 					}
 					for (imp, real) in [("a", real_map(&ra, kind, &s, &mut st)), ("b", real_map(&rb, kind, &s, &mut st))] {
-						judge_desc(ctx, &mut st, imp, kind, &s, &real, &fwd, &|| format!("{}impl={imp}\nkind={}\ninput={s}\n{}", case_header("desc", 2, 0, 1), kind.label(), case_mappings(set)));
+						let ok = judge_desc_tally(ctx, &mut ta, imp, kind, &s, &real, &fwd, &|| format!("{}impl={imp}\nkind={}\ninput={s}\n{}", case_header("desc", 2, 0, 1), kind.label(), case_mappings(set)));
+						if ok && non_ascii && !grammatical {
+							ta.add("malformed:non-ascii-judged");
+						}
 						if imp == "a" && !grammatical {
 							if let Ok(r) = &real {
 								let tag = if r.is_ok() { "malformed-ok" } else { "malformed-err" };
@@ -594,6 +635,7 @@ pub fn run_malformed(ctx: &'static Ctx) -> Stats {
 					}
 				}
 			}
+			ta.flush(&mut st);
 		});
 		st
 	}).reduce(Stats::new, Stats::merge)
